@@ -163,3 +163,10 @@ package core
 //@   ghost wasClosed = l.closed at call:Lock#1
 //@   ensures wasClosed ==> result == mangos.ErrClosed
 //@   before call:Close#1 assert l.closed && !wasClosed && held(l.Mutex)
+//@
+//@ func (*socket).Close
+//@   loop 1 complete
+//@   loop 2 complete
+//@   before call:Unlock#1 assert s.closed && len(s.listeners) == 0 && len(s.dialers) == 0
+//@   before call:Unlock#1 assert s.pipehook == at("call:Lock#1", s.pipehook) && s.proto == at("call:Lock#1", s.proto)
+//@   ensures called("CloseAll")
